@@ -377,7 +377,12 @@ pub fn fresh_cache_twin<H: ArchH>(rep: &mut Report, w: &World<H>, op: &Op, ans: 
         let got: String = ans.split(' ').filter(|t| !t.starts_with("stats=") && !t.starts_with("t=")).collect::<Vec<_>>().join(" ");
         rep.count("fresh-cache twins outside hist");
         if twin != got {
-            add_oracle(rep, &["C06"], "cache-changes-outcome", format!("outcome with the shared cache differs from a fresh cache: fresh={twin}"), case(), &got);
+            let c = case();
+            add_oracle(rep, &["C06"], "cache-changes-outcome", format!("outcome with the shared cache differs from a fresh cache: fresh={twin}"), c.clone(), &got);
+            if got.starts_with("done ") && !twin.starts_with("done ") && twin != "panic" {
+                add_oracle(rep, &["C11"], "end-of-stack-reported-without-a-root-marker",
+                    format!("the call completed the walk with Ok(None), but the same unwinder on the same registers and stack with a fresh cache gives {twin}: what ended the walk is not a root marker of this stack"), c, &got);
+            }
         }
     }
 }
@@ -594,6 +599,13 @@ pub fn run_history<H: ArchH>(rep: &mut Report, h: &Hist, hist_id: u64, all_gens:
                     add_oracle(rep, &["C06"], "cache-changes-outcome",
                         format!("outcome with the shared cache differs from a fresh cache: fresh={twin}"),
                         context_of(&lines, here), &got);
+                    // C11: Ok(None) although this unwinder, on this very thread state, finds a
+                    // frame or an error when nothing is cached - there is no root marker here
+                    if got.starts_with("done ") && !twin.starts_with("done ") && twin != "panic" {
+                        add_oracle(rep, &["C11"], "end-of-stack-reported-without-a-root-marker",
+                            format!("the call completed the walk with Ok(None), but the same unwinder on the same registers and stack with a fresh cache gives {twin}: what ended the walk is not a root marker of this stack"),
+                            context_of(&lines, here), &got);
+                    }
                 }
                 // C04: a first frame at an address of a DWARF module that no FDE covers is a
                 // frameless leaf (decided from the generator's own description of the module)
@@ -728,9 +740,9 @@ pub fn run_history<H: ArchH>(rep: &mut Report, h: &Hist, hist_id: u64, all_gens:
                 // the walk's lookups are not tracked one by one
                 known_slot.retain(|k, _| k.0 != *c);
                 // C17: iterator (fresh cache, both interfaces) vs manual fold (fresh cache)
-                let manual = manual_fold::<H>(&w.unws[u], *pc, regs, mem, *extra, *max);
+                let manual = manual_fold::<H>(&w.unws[u], *pc, regs, mem, *extra, *max, false);
                 for via_trait in [false, true] {
-                    let it = iter_fresh::<H>(&w.unws[u], *pc, regs, mem, *extra, *max, via_trait);
+                    let it = iter_fresh::<H>(&w.unws[u], *pc, regs, mem, *extra, *max, via_trait, false);
                     if it != manual {
                         add_oracle(rep, &["C17"], if via_trait { "fallible-iterator-differs-from-fold" } else { "iterator-differs-from-fold" },
                             format!("iterator: {it} ; repeated unwind_frame: {manual}"), context_of(&lines, here), &ans);
@@ -745,6 +757,20 @@ pub fn run_history<H: ArchH>(rep: &mut Report, h: &Hist, hist_id: u64, all_gens:
                                     format!("after {} the iterator reports Ok(None) although no root marker was reached (repeated unwind_frame: {manual})", iv[k]),
                                     context_of(&lines, here), &ans);
                             }
+                        }
+                    }
+                }
+                // C17 with a reader that changes its answers: after the first failed read the
+                // whole stack is readable; polling again after the Err must continue exactly as
+                // repeated unwind_frame calls from the same frame do
+                if *extra > 0 && manual.contains("err:stack") {
+                    let manual_h = manual_fold::<H>(&w.unws[u], *pc, regs, mem, *extra, *max, true);
+                    for via_trait in [false, true] {
+                        let it_h = iter_fresh::<H>(&w.unws[u], *pc, regs, mem, *extra, *max, via_trait, true);
+                        rep.count("iterator vs fold with a stack that becomes readable after the first failure");
+                        if it_h != manual_h {
+                            add_oracle(rep, &["C17"], if via_trait { "fallible-iterator-differs-from-fold-after-the-stack-became-readable" } else { "iterator-differs-from-fold-after-the-stack-became-readable" },
+                                format!("read_stack fails once and then succeeds everywhere: iterator: {it_h} ; repeated unwind_frame: {manual_h}"), context_of(&lines, here), &ans);
                         }
                     }
                 }
@@ -1033,12 +1059,49 @@ fn no_overlap(live: &[String], mods: &BTreeMap<String, (ModSpec, framehop::Modul
     r.windows(2).all(|w| w[0].1 <= w[1].0 && w[0].0 != w[1].0)
 }
 
-fn manual_fold<H: ArchH>(unw: &H::Unw, pc: u64, regs: &RegsAny, mem: &crate::mem::MemDesc, extra: u64, max: u64) -> String {
+/// A stack reader whose first failed read makes the whole stack readable afterwards (a
+/// profiler that fetches more of the sampled stack after a failure): `read_stack` is `FnMut`,
+/// and polling the iterator again after an `Err` must do what calling `unwind_frame` again does.
+struct Healing<'a> {
+    mem: &'a crate::mem::MemDesc,
+    healed: crate::mem::MemDesc,
+    heal: bool,
+    failed: std::cell::Cell<bool>,
+}
+
+impl<'a> Healing<'a> {
+    fn new(mem: &'a crate::mem::MemDesc, heal: bool) -> Self {
+        let mut healed = mem.clone();
+        healed.cut = None;
+        if healed.default == crate::mem::Dflt::Fail {
+            healed.default = crate::mem::Dflt::Ident;
+        }
+        for e in healed.entries.iter_mut() {
+            if e.1.is_none() {
+                e.1 = Some(e.0 ^ 0x5a5a);
+            }
+        }
+        Healing { mem, healed, heal, failed: std::cell::Cell::new(false) }
+    }
+    fn read(&self, a: u64) -> Result<u64, ()> {
+        if self.heal && self.failed.get() {
+            return self.healed.read(a);
+        }
+        let r = self.mem.read(a);
+        if r.is_err() {
+            self.failed.set(true);
+        }
+        r
+    }
+}
+
+fn manual_fold<H: ArchH>(unw: &H::Unw, pc: u64, regs: &RegsAny, mem: &crate::mem::MemDesc, extra: u64, max: u64, heal: bool) -> String {
     use framehop::{FrameAddress, Unwinder};
     let mut cache = H::new_cache();
     let mut items = vec![format!("ip:{}", hex(pc))];
     let mut g = H::to_fh(regs);
-    let mut rs = |a: u64| mem.read(a);
+    let hr = Healing::new(mem, heal);
+    let mut rs = |a: u64| hr.read(a);
     let mut addr = FrameAddress::from_instruction_pointer(pc);
     let mut fuel = max.saturating_sub(1);
     let r = catch(|| {
@@ -1128,11 +1191,12 @@ fn manual_fold<H: ArchH>(unw: &H::Unw, pc: u64, regs: &RegsAny, mem: &crate::mem
     items.join(",")
 }
 
-fn iter_fresh<H: ArchH>(unw: &H::Unw, pc: u64, regs: &RegsAny, mem: &crate::mem::MemDesc, extra: u64, max: u64, via_trait: bool) -> String {
+fn iter_fresh<H: ArchH>(unw: &H::Unw, pc: u64, regs: &RegsAny, mem: &crate::mem::MemDesc, extra: u64, max: u64, via_trait: bool, heal: bool) -> String {
     use framehop::Unwinder;
     let mut cache = H::new_cache();
     let mut items: Vec<String> = Vec::new();
-    let mut rs = |a: u64| mem.read(a);
+    let hr = Healing::new(mem, heal);
+    let mut rs = |a: u64| hr.read(a);
     let r = catch(|| {
         let mut it = unw.iter_frames(pc, H::to_fh(regs), &mut cache, &mut rs);
         let mut fuel = max;
